@@ -5,7 +5,7 @@ from ..util import np
 from numbers import Number
 from .indexablearray import IndexableArray
 from ..raggedshape import RaggedShape, RaggedView, ViewBase, RaggedView2
-from ..util import unsafe_extend_left
+from ..util import unsafe_extend_left, unsafe_extend_right
 from ..arrayfunctions import HANDLED_FUNCTIONS, REDUCTIONS, ACCUMULATIONS
 
 
@@ -550,10 +550,11 @@ class RaggedArray(IndexableArray, np.lib.mixins.NDArrayOperatorsMixin):
         return ra - offsets[:, None]
 
     def _row_accumulate(self, operator, dtype=None):
-        starts = self.ravel()[self._shape.starts]
+        # trailing empty rows start one past the end of the data
+        starts = unsafe_extend_right(self.ravel())[self._shape.starts]
         cm = operator.accumulate(self.ravel(), dtype=dtype)
         offsets = INVERSE_FUNCS[operator][0](
-            starts, cm[self._shape.starts]
+            starts, unsafe_extend_right(cm)[self._shape.starts]
         )  # TODO: This is the inverse
         ra = self.__class__(cm, self._shape)
         return INVERSE_FUNCS[operator][1](ra, offsets[:, None])
